@@ -6,7 +6,7 @@
  * a server (receive one datagram, answer it in some way) is an explicit scenario line.
  *
  * Link with -Wl,--wrap=sendto,--wrap=recvfrom,--wrap=socket,--wrap=close,--wrap=timerfd_create,
- *           --wrap=timerfd_settime,--wrap=clock_gettime,--wrap=calloc,--wrap=free
+ *           --wrap=timerfd_settime,--wrap=clock_gettime,--wrap=calloc,--wrap=free,--wrap=setsockopt
  * The wrappers log what the client does to the outside (datagrams, timer programming, sockets), inject the
  * faults the scenario arms (unreachable server, socket() failure) and keep a ledger of the client's
  * descriptors and query blocks.  liblcb_verif_point() (hook of the thread pool) tells which message /
@@ -19,6 +19,7 @@
 #include <stdarg.h>
 #include <poll.h>
 #include <signal.h>
+#include <sys/ioctl.h>
 #include "threadpool/threadpool.c"
 #include "threadpool/threadpool_msg_sys.c"
 #include "threadpool/threadpool_task.c"
@@ -33,6 +34,7 @@ ssize_t __real_sendto(int, const void *, size_t, int, const struct sockaddr *, s
 ssize_t __real_recvfrom(int, void *, size_t, int, struct sockaddr *, socklen_t *);
 int __real_socket(int, int, int);
 int __real_close(int);
+int __real_setsockopt(int, int, int, const void *, socklen_t);
 int __real_timerfd_create(int, int);
 int __real_timerfd_settime(int, int, const struct itimerspec *, struct itimerspec *);
 int __real_clock_gettime(clockid_t, struct timespec *);
@@ -40,15 +42,15 @@ void *__real_calloc(size_t, size_t);
 void __real_free(void *);
 
 /* ------------------------------------------------------------------ log sink */
-static pthread_mutex_t g_log_mu = PTHREAD_MUTEX_INITIALIZER;
-static char *g_log; static size_t g_log_len, g_log_cap;
-static const char *g_out_path;
-static __thread int vh_tid = -999;
-static int g_ext_ctr = 100;
+pthread_mutex_t g_log_mu = PTHREAD_MUTEX_INITIALIZER;
+char *g_log; size_t g_log_len, g_log_cap;
+const char *g_out_path;
+__thread int vh_tid = -999;
+int g_ext_ctr = 100;
 
-static tp_p g_tp; static size_t g_nthr;
-static radius_cli_p g_cli;           /* the client under test (NULL outside create..destroy) */
-static volatile int g_cli_live;      /* wrappers attribute pool-thread sockets/timers to the client while set */
+tp_p x02_tp; size_t g_nthr;
+radius_cli_p g_cli;           /* the client under test (NULL outside create..destroy) */
+volatile int g_cli_live;      /* wrappers attribute pool-thread sockets/timers to the client while set */
 
 static void flush_log(void) {
 	if (!g_out_path) return;
@@ -61,7 +63,7 @@ void __sanitizer_set_death_callback(void (*)(void)) __attribute__((weak));
 
 static int tid_now(void) {
 	if (vh_tid != -999) return vh_tid;
-	tpt_p t = (g_tp != NULL) ? tpt_get_current() : NULL;
+	tpt_p t = (x02_tp != NULL) ? tpt_get_current() : NULL;
 	if (t != NULL) vh_tid = (int)t->thread_num; else vh_tid = __sync_fetch_and_add(&g_ext_ctr, 1);
 	return vh_tid;
 }
@@ -99,8 +101,8 @@ static void on_alarm(int sig) {
 
 /* ------------------------------------------------------------------ scenario objects */
 #define MAXSRV 4
-#define MAXQ 64
-#define MAXRX 256
+#define MAXQ 400
+#define MAXRX 1024
 #define MAXSK 64
 typedef struct {
 	int fd; uint16_t port; int fam; struct sockaddr_storage addr;
@@ -110,27 +112,28 @@ typedef struct {
 	int nrx;
 	long fifo[4096]; int fh, fl;    /* transmissions that reached the server's queue, in order */
 } fsrv_t;
-static fsrv_t g_srv[MAXSRV + 1]; static int g_nsrv;
-static int g_foreign4 = -1, g_foreign6 = -1; /* a socket that is NOT a configured server (spoofed source) */
+fsrv_t g_srv[MAXSRV + 1]; int g_nsrv;
+int g_foreign4 = -1, g_foreign6 = -1; /* a socket that is NOT a configured server (spoofed source) */
 
 typedef struct {
 	radius_cli_query_p h; io_buf_t buf; uint8_t data[4096]; int thr; int nonce;
 	volatile int cbdone; volatile int cancelled; int submitted; int chain; /* chain: query to submit from inside the callback */
 	char chain_args[128];
 } fq_t;
-static fq_t g_q[MAXQ + 1];
+fq_t g_q[MAXQ + 1];
 
 /* client sockets: descriptor -> instance number u (1, 2, ... in creation order), UDP port once bound */
-static struct { int fd; long u; uint16_t port; int fam; } g_sk[MAXSK]; static int g_nsk; static long g_u;
-static int g_tfd[256]; static int g_ntfd;             /* live timerfds created while the client is live */
-static void *g_qmem[256]; static int g_qmem_q[256]; static int g_nqmem; /* live query blocks and the scenario query they belong to */
-static __thread int vh_cur_q;                         /* query number of the radius_client_query() call in progress on this thread */
-static long g_x, g_d;                                 /* transmission / reply datagram counters */
-static int g_sockfail;                                /* errno for the client's next socket() calls */
-static pthread_mutex_t g_led_mu = PTHREAD_MUTEX_INITIALIZER;
-static struct { const radius_cli_skt_t *p; int t, fam, s; } g_sreg[MAXSK]; static int g_nsreg; /* live socket blocks and their table position once seen */
-static void *g_tab[64][2];                            /* addresses of the per-thread socket tables, taken at create */
-static volatile int g_arr_freed[64][2];               /* the per-thread socket table (family 4 / 6) was released by the client */
+struct { int fd; long u; uint16_t port; int fam; } g_sk[MAXSK]; int g_nsk; long g_u;
+int g_tfd[1024]; int g_ntfd;             /* live timerfds created while the client is live */
+void *g_qmem[1024]; int g_qmem_q[1024]; int g_nqmem; /* live query blocks and the scenario query they belong to */
+__thread int vh_cur_q;                         /* query number of the radius_client_query() call in progress on this thread */
+long g_x, g_d;                                 /* transmission / reply datagram counters */
+volatile long g_rxcnt;                         /* datagrams the client has read */
+int g_sockfail;                                /* errno for the client's next socket() calls */
+pthread_mutex_t g_led_mu = PTHREAD_MUTEX_INITIALIZER;
+struct { const radius_cli_skt_t *p; int t, fam, s; } g_sreg[MAXSK]; int g_nsreg; /* live socket blocks and their table position once seen */
+void *g_tab[64][2];                            /* addresses of the per-thread socket tables, taken at create */
+volatile int g_arr_freed[64][2];               /* the per-thread socket table (family 4 / 6) was released by the client */
 
 static int sk_find(int fd) { for (int i = 0; i < g_nsk; i++) if (g_sk[i].fd == fd) return i; return -1; }
 static long sk_by_port(uint16_t port, int fam) { for (int i = 0; i < g_nsk; i++) if (g_sk[i].port == port && g_sk[i].fam == fam && port) return g_sk[i].u; return 0; }
@@ -174,21 +177,21 @@ static int cli_tmr_index(int t, const void *ud, int *fam, int *id) {
 static int q_by_handle(const void *h) { int q = 0; pthread_mutex_lock(&g_led_mu); for (int i = 0; i < g_nqmem; i++) if (g_qmem[i] == h) q = g_qmem_q[i]; pthread_mutex_unlock(&g_led_mu); return q; }
 
 /* ------------------------------------------------------------------ forced clock (jitter control) */
-static volatile int g_force_clk; static struct timespec g_forced_ts; static __thread int vh_probe;
+volatile int g_force_clk; struct timespec g_forced_ts; __thread int vh_probe;
 int __wrap_clock_gettime(clockid_t c, struct timespec *ts) {
-	if (g_force_clk && c == CLOCK_MONOTONIC && (vh_probe || (g_tp && tpt_get_current() != NULL))) { *ts = g_forced_ts; return 0; }
+	if (g_force_clk && c == CLOCK_MONOTONIC && (vh_probe || (x02_tp && tpt_get_current() != NULL))) { *ts = g_forced_ts; return 0; }
 	return __real_clock_gettime(c, ts);
 }
 
 /* ------------------------------------------------------------------ the pool hook */
-static __thread struct { int on, s, fam, id, op; } vh_tm;
+__thread struct { int on, s, fam, id, op; } vh_tm;
 static void x02_ctl_cb(tpt_p tpt, void *udata);
 void liblcb_verif_point(const char *label, const void *a, const void *b, uintptr_t val) {
 	int saved = errno;
 	if (0 == strcmp(label, "proc.enter")) {
 		vh_tid = (int)((const tp_thread_t *)a)->thread_num;
 	} else if (0 == strcmp(label, "create.pvt_running")) {
-		g_tp = (tp_p)(uintptr_t)a;
+		x02_tp = (tp_p)(uintptr_t)a;
 	} else if (0 == strcmp(label, "recv.run")) {
 		if ((const void *)val == (const void *)radius_client_query_tpt_msg_cb) {
 			LOGEV("\"e\":\"start\",\"q\":%d", q_by_handle(b));
@@ -220,8 +223,8 @@ void liblcb_verif_point(const char *label, const void *a, const void *b, uintptr
 /* ------------------------------------------------------------------ wrappers */
 int __wrap_timerfd_create(int clk, int flags) {
 	int fd = __real_timerfd_create(clk, flags);
-	if (fd >= 0 && g_cli_live && g_tp && tpt_get_current() != NULL) {
-		pthread_mutex_lock(&g_led_mu); if (g_ntfd < 256) g_tfd[g_ntfd++] = fd; pthread_mutex_unlock(&g_led_mu);
+	if (fd >= 0 && g_cli_live && x02_tp && tpt_get_current() != NULL) {
+		pthread_mutex_lock(&g_led_mu); if (g_ntfd < 1024) g_tfd[g_ntfd++] = fd; pthread_mutex_unlock(&g_led_mu);
 	}
 	return fd;
 }
@@ -238,7 +241,7 @@ int __wrap_timerfd_settime(int fd, int flags, const struct itimerspec *nv, struc
 	return rc;
 }
 int __wrap_socket(int dom, int type, int proto) {
-	if (g_cli_live && g_tp && tpt_get_current() != NULL && (type & 0xf) == SOCK_DGRAM) {
+	if (g_cli_live && x02_tp && tpt_get_current() != NULL && (type & 0xf) == SOCK_DGRAM) {
 		if (g_sockfail) { LOGEV("\"e\":\"skt.new\",\"u\":0,\"fam\":%d,\"rc\":%d", (dom == AF_INET6) ? 6 : 4, g_sockfail); errno = g_sockfail; return -1; }
 		int fd = __real_socket(dom, type, proto);
 		int err = errno;
@@ -251,6 +254,19 @@ int __wrap_socket(int dom, int type, int proto) {
 		return fd;
 	}
 	return __real_socket(dom, type, proto);
+}
+int __wrap_setsockopt(int fd, int level, int opt, const void *val, socklen_t len) {
+	int rc = __real_setsockopt(fd, level, opt, val, len);
+	int err = errno;
+	if (level == SOL_SOCKET && (opt == SO_RCVBUF || opt == SO_SNDBUF) && len == sizeof(uint32_t)) {
+		pthread_mutex_lock(&g_led_mu);
+		int i = sk_find(fd);
+		long u = (i >= 0) ? g_sk[i].u : 0;
+		pthread_mutex_unlock(&g_led_mu);
+		if (u) LOGEV("\"e\":\"skt.buf\",\"u\":%ld,\"opt\":\"%s\",\"val\":%u", u, (opt == SO_RCVBUF) ? "rcv" : "snd", *(const uint32_t *)val);
+	}
+	errno = err;
+	return rc;
 }
 int __wrap_close(int fd) {
 	pthread_mutex_lock(&g_led_mu);
@@ -271,7 +287,7 @@ void *__wrap_calloc(size_t n, size_t sz) {
 		pthread_mutex_lock(&g_led_mu); if (g_nsreg < MAXSK) { g_sreg[g_nsreg].p = p; g_sreg[g_nsreg].s = -1; g_sreg[g_nsreg].fam = 0; g_sreg[g_nsreg].t = -1; g_nsreg++; } pthread_mutex_unlock(&g_led_mu);
 	}
 	if (p && g_cli_live && n == 1 && sz == sizeof(radius_cli_query_t)) {
-		pthread_mutex_lock(&g_led_mu); if (g_nqmem < 256) { g_qmem[g_nqmem] = p; g_qmem_q[g_nqmem] = vh_cur_q; g_nqmem++; } pthread_mutex_unlock(&g_led_mu);
+		pthread_mutex_lock(&g_led_mu); if (g_nqmem < 1024) { g_qmem[g_nqmem] = p; g_qmem_q[g_nqmem] = vh_cur_q; g_nqmem++; } pthread_mutex_unlock(&g_led_mu);
 	}
 	return p;
 }
@@ -384,6 +400,7 @@ ssize_t __wrap_recvfrom(int fd, void *buf, size_t len, int flags, struct sockadd
 			if (rc >= 28 && p[20] == 18 && p[21] == 8 && p[22] == 'D') d = strtol((const char[]){ (char)p[23], (char)p[24], (char)p[25], (char)p[26], (char)p[27], 0 }, NULL, 10);
 			int fam = 0, s = cli_sock_index(tid_now(), fd, &fam);
 			LOGEV("\"e\":\"rx\",\"u\":%ld,\"s\":%d,\"fam\":%d,\"d\":%ld", u, s, fam, d);
+			__sync_fetch_and_add(&g_rxcnt, 1);
 		}
 	}
 	errno = err;
@@ -436,7 +453,7 @@ static void do_query(int q, const char *args) {
 	LOGEV("\"e\":\"call.query\",\"q\":%d,\"thr\":%d,\"idany\":%d,\"i\":%d,\"nonce\":%d,\"code\":%d,\"pwd\":%d", q, thr, (idv == RADIUS_CLIENT_QUERY_ID_AUTO), (idv == RADIUS_CLIENT_QUERY_ID_AUTO) ? 0 : (int)idv, nonce, code, pwd);
 	/* the handle is stored by the library before the message can run only if we pass query_ret; the start hook looks it up by value */
 	vh_cur_q = q;
-	int rc = radius_client_query(g_cli, &g_tp->threads[thr], idv, &fq->buf, user_cb, (void *)(intptr_t)q, &fq->h);
+	int rc = radius_client_query(g_cli, &x02_tp->threads[thr], idv, &fq->buf, user_cb, (void *)(intptr_t)q, &fq->h);
 	LOGEV("\"e\":\"ret.query\",\"q\":%d,\"rc\":%d", q, rc);
 	if (rc != 0) fq->submitted = 0;
 }
@@ -452,7 +469,7 @@ static int on_thread(int thr, const char *line, int wait_ms) { /* run a scenario
 	ctl_t *c = __real_calloc(1, sizeof(*c));
 	sem_init(&c->sem, 0, 0);
 	if (line) strncpy(c->line, line, sizeof(c->line) - 1);
-	int rc = tpt_msg_send(&g_tp->threads[thr], NULL, 0, x02_ctl_cb, c);
+	int rc = tpt_msg_send(&x02_tp->threads[thr], NULL, 0, x02_ctl_cb, c);
 	if (rc != 0) { __real_free(c); return rc; }
 	struct timespec ts; __real_clock_gettime(CLOCK_REALTIME, &ts);
 	ts.tv_sec += wait_ms / 1000; ts.tv_nsec += (long)(wait_ms % 1000) * 1000000L; if (ts.tv_nsec >= 1000000000L) { ts.tv_sec++; ts.tv_nsec -= 1000000000L; }
@@ -526,20 +543,20 @@ static void exec_line(char *line) {
 		sscanf(args, "%d", &a);
 		tp_settings_t s; tp_settings_def(&s);
 		s.flags = 0; s.threads_max = (size_t)a;
-		g_nthr = (size_t)a; g_tp = NULL;
+		g_nthr = (size_t)a; x02_tp = NULL;
 		tp_p tp = NULL;
 		int rc = tp_create(&s, &tp);
-		g_tp = tp;
+		x02_tp = tp;
 		if (rc == 0) rc = tp_threads_create(tp, 0);
 		for (int t = 0; rc == 0 && t < 20000; t++) {
 			size_t ok = 0;
-			for (size_t i = 0; i < g_nthr; i++) if (g_tp->threads[i].state == TP_THREAD_STATE_RUNNING) ok++;
+			for (size_t i = 0; i < g_nthr; i++) if (x02_tp->threads[i].state == TP_THREAD_STATE_RUNNING) ok++;
 			if (ok == g_nthr) break;
 			usleep(100);
 		}
 		LOGEV("\"e\":\"pool\",\"nthr\":%d,\"rc\":%d", a, rc);
 	} else if (!strcmp(op, "poolstop")) {
-		tp_shutdown(g_tp); tp_shutdown_wait(g_tp); tp_destroy(g_tp); g_tp = NULL;
+		tp_shutdown(x02_tp); tp_shutdown_wait(x02_tp); tp_destroy(x02_tp); x02_tp = NULL;
 		LOGEV("\"e\":\"poolstop\"");
 	} else if (!strcmp(op, "client")) { /* client smin smax [nas] */
 		sscanf(args, "%d %d %d", &a, &b, &c);
@@ -549,11 +566,11 @@ static void exec_line(char *line) {
 		pthread_mutex_lock(&g_led_mu); g_nsk = 0; g_ntfd = 0; g_nqmem = 0; g_u = 0; g_nsreg = 0; pthread_mutex_unlock(&g_led_mu);
 		g_x = 0; g_d = 0; g_nsrv = 0; g_sockfail = 0; memset((void *)g_arr_freed, 0, sizeof(g_arr_freed));
 		memset(g_q, 0, sizeof(g_q));
-		int rc = radius_client_create(g_tp, &s, &g_cli);
+		int rc = radius_client_create(x02_tp, &s, &g_cli);
 		memset(g_tab, 0, sizeof(g_tab));
 		for (size_t t = 0; rc == 0 && t < g_cli->thr_count && t < 64; t++) { g_tab[t][0] = g_cli->thr[t].skts4.skt; g_tab[t][1] = g_cli->thr[t].skts6.skt; }
 		g_cli_live = (rc == 0);
-		LOGEV("\"e\":\"client\",\"smin\":%d,\"smax\":%d,\"nas\":%d,\"nthr\":%zu,\"rc\":%d", a ? a : 1, (b < (a ? a : 1)) ? (a ? a : 1) : b, c, g_nthr, rc);
+		LOGEV("\"e\":\"client\",\"smin\":%d,\"smax\":%d,\"nas\":%d,\"nthr\":%zu,\"rcvkb\":%u,\"sndkb\":%u,\"rc\":%d", a ? a : 1, (b < (a ? a : 1)) ? (a ? a : 1) : b, c, g_nthr, s.skt_rcv_buf, s.skt_snd_buf, rc);
 	} else if (!strcmp(op, "server")) { /* server k fam irt mrt mrd mrc sec */
 		sscanf(args, "%d %d %d %d %d %d %d", &a, &b, &c, &d, &e, &f, &g);
 		fsrv_t *sv = &g_srv[a]; memset(sv, 0, sizeof(*sv));
@@ -631,10 +648,14 @@ static void exec_line(char *line) {
 			pthread_mutex_unlock(&g_led_mu);
 			int fd = sv->fd;
 			if (!strcmp(kind, "wrongsrc")) fd = (sv->fam == 6) ? g_foreign6 : g_foreign4;
+			long before = g_rxcnt;
 			pthread_mutex_lock(&g_log_mu);
 			logf_locked("\"e\":\"srv.tx\",\"k\":%d,\"d\":%ld,\"x\":%ld,\"kind\":\"%s\",\"u\":%ld", a, dd, sv->rx[b].x, kind, u);
 			__real_sendto(fd, o, (size_t)l, 0, (struct sockaddr *)&sv->rx[b].from, sv->rx[b].fromlen);
 			pthread_mutex_unlock(&g_log_mu);
+			/* pace: give the client the chance to read this datagram before the next one is sent (the kernel drops what
+			 * does not fit into the receive buffer the client configured); a dup burst (times > 1) stays a burst */
+			if (u && rep == c - 1) for (int w = 0; w < 1500 && g_rxcnt < before + c; w++) usleep(200);
 		}
 	} else if (!strcmp(op, "waitcb")) { /* waitcb q ms */
 		sscanf(args, "%d %d", &a, &b);
@@ -650,9 +671,18 @@ static void exec_line(char *line) {
 			LOGEV("\"e\":\"ret.cancel\",\"q\":%d", a);
 		} else LOGEV("\"e\":\"skip.cancel\",\"q\":%d", a);
 	} else if (!strcmp(op, "settle")) {
+		int unread = 0;
+		for (int w = 0; w < 5000; w++) { /* bounded: a client that stopped reading leaves data in its socket */
+			unread = 0;
+			pthread_mutex_lock(&g_led_mu);
+			for (int i = 0; i < g_nsk; i++) { int n = 0; if (0 == ioctl(g_sk[i].fd, FIONREAD, &n) && n > 0) unread++; }
+			pthread_mutex_unlock(&g_led_mu);
+			if (!unread) break;
+			usleep(1000);
+		}
 		for (size_t i = 0; i < g_nthr; i++) on_thread((int)i, NULL, 10000);
 		pthread_mutex_lock(&g_led_mu); int nq = g_nqmem, nt = g_ntfd, ns = g_nsk; pthread_mutex_unlock(&g_led_mu);
-		LOGEV("\"e\":\"settled\",\"qmem\":%d,\"tfds\":%d,\"skts\":%d", nq, nt, ns);
+		LOGEV("\"e\":\"settled\",\"qmem\":%d,\"tfds\":%d,\"skts\":%d,\"unread\":%d", nq, nt, ns, unread);
 	} else if (!strcmp(op, "destroy")) {
 		LOGEV("\"e\":\"call.destroy\"");
 		radius_client_destroy(g_cli);
